@@ -173,7 +173,8 @@ func memSeq(rng *rand.Rand, out *Out, steps int) {
 			if st, ok := r.states[id]; ok {
 				out.Oracle(v != nil, "mem-get-availability", M{"id": fmt.Sprint(id)})
 				if v != nil {
-					s.views[s.nview] = &rview{v: v, base: st, local: map[string][]byte{}}
+					// versions of the in-memory manager keep the tombstones of their own deletions: nil-valued entries are the store's convention there
+					s.views[s.nview] = &rview{v: v, base: st, local: map[string][]byte{}, frontierBased: true}
 				}
 			} else {
 				// an abandoned identifier: nothing is promised; do not track the view in the reference
@@ -189,7 +190,7 @@ func memSeq(rng *rand.Rand, out *Out, steps int) {
 			}
 			s.ans = append(s.ans, Con("AKind", I64(kind)))
 			if v != nil {
-				s.views[s.nview] = &rview{v: v, base: r.states[r.frontier], local: map[string][]byte{}}
+				s.views[s.nview] = &rview{v: v, base: r.states[r.frontier], local: map[string][]byte{}, frontierBased: true}
 			}
 		case x < 55:
 			if sl, rv := s.pickSlot(); rv != nil {
